@@ -59,5 +59,19 @@ GROUP = {
         requires posting_fits(*self.value, *self.context),
         ensures r is Ok ==> final(f).text() == posting_lines(old(f).text(), *self.value, *self.context),   // @Posting.fmt.line_is_indent_account_padding_amount_assertion
 """),
+        # ---- entry separation (core/src/format.rs): one line end after every entry's own text
+        U("callsite:FormatOptions::format.entry_separator", "core/src/format.rs", [r"impl FormatOptions\b", r"pub fn format<R, W>"], fn="entry_separator",
+      slice=r"((?:writeln|write)!\(w, \"[^\"]*\", ctx\.as_display\(&entry\)\)\?;)", slice_count=1, slice_raw=True,
+      rewrites=[("R50",), ("R17-free-variable", "ctx.as_display(&entry)", "*shown", 1)],
+      slice_template="""fn entry_separator<W: fmt::Write, T: DisplayText>(w: &mut W, shown: &T) -> (r: Result<(), fmt::Error>)
+    ensures
+        // C19: after every entry's own text exactly ONE more line end is written: since an entry's text ends with a line end (for a transaction: posting_line
+        // ends with '\\n', proved above), consecutive entries are separated by exactly one blank line
+        r is Ok ==> final(w).text() == old(w).text() + shown.display_text() + seq!['\\n'],   // @format.one_line_end_after_every_entry
+{
+    proof { reveal_strlit("\\n"); let nl = seq!['\\n']; assert("\\n"@ =~= nl); }
+    {EXPR}
+    Ok(())
+}"""),
     ],
 }
